@@ -1,17 +1,64 @@
-(* C10 model driver.  Case line:
-     x <progname hex> <progver hex> <env> <op> <op> ...
-   env: "-" or NAMEHEX=VALUEHEX,...   ops: e:<hex> (expand), p:<k>:<v> (put_var), d:<k> (put_var k NULL),
-   g:<k> (get_var).  Output: one result per op separated by " ; " (an expansion result is followed by L<blocks left allocated>),
+(* C10 model driver.  Case line (the grammar is documented at the top of harness/c10.c):
+     x <progname> <progver> <world> <op> <op> ...
+   every text is a value spec (parts joined by '+': hex | - | *<n> | *<n>/<hexpattern>);
+   world: "-" or a comma-separated list of NAME=VALUE (environment), @o=VALUE (what a command run by %exec prints),
+   @d<name>=<e>;<e>;... (a directory: VALUE regular file, !VALUE directory, ?VALUE stat fails, #<count>x<len> generated names);
+   ops: e:<text> (expand), p:<k>:<v> (put_var), d:<k> (put_var k NULL), g:<k> (get_var).  Output: one result per op separated by " ; " (an expansion result is followed by L<blocks left allocated>),
    then " | " and the store in list order.
    An expansion runs on an object of CONFIG_BUFF cells: the text, its terminator, then cells that were never
    written (reading one is a fault). *)
 let show_res f = function Ok a -> f a | Fault x -> "FAULT:" ^ fault_name x
 let split_on c s = String.split_on_char c s
-let parse_env s =
-  if s = "-" then [] else
-  List.map (fun kv -> match split_on '=' kv with
-      | [k; v] -> (zbytes_of_hex k, zbytes_of_hex v)
-      | _ -> failwith "env") (split_on ',' s)
+(* value spec -> bytes *)
+let ints_of_spec (v : string) : int list =
+  List.concat_map (fun part ->
+      if part = "" then [] else
+      if part.[0] = '*' then begin
+        let body = String.sub part 1 (String.length part - 1) in
+        let (n, pat) = match String.index_opt body '/' with
+          | Some i -> (int_of_string (String.sub body 0 i), ints_of_hex (String.sub body (i + 1) (String.length body - i - 1)))
+          | None -> (int_of_string body, []) in
+        let pa = Array.of_list pat in
+        let pl = Array.length pa in
+        List.init n (fun i -> if pl = 0 then 76 else pa.(i mod pl))
+      end else ints_of_hex part) (split_on '+' v)
+let zbytes_of_spec v = List.map z_of_int (ints_of_spec v)
+(* the generated names of a "#<count>x<len>" listing entry: the index in base 36, right-aligned in a name of upper-case
+   letters (the letter is chosen by the position of the entry in the listing), as harness/c10.c *)
+let gen_names grp cnt len =
+  List.init cnt (fun i ->
+      let b = Bytes.make len (Char.chr (65 + grp mod 26)) in
+      let rec digits q acc = let acc = "0123456789abcdefghijklmnopqrstuvwxyz".[q mod 36] :: acc in if q / 36 = 0 then acc else digits (q / 36) acc in
+      let ds = List.rev (digits i []) in          (* least significant first *)
+      List.iteri (fun z c -> if z < len then Bytes.set b (len - 1 - z) c) ds;
+      List.init len (fun k -> z_of_int (Char.code (Bytes.get b k))))
+type world = { env : (z list * z list) list; out : z list option; dirs : (z list * z list list) list }
+let parse_world s =
+  let w = ref { env = []; out = None; dirs = [] } in
+  if s <> "-" then
+    List.iter (fun kv ->
+        match String.index_opt kv '=' with
+        | None -> failwith "world"
+        | Some i ->
+          let k = String.sub kv 0 i and v = String.sub kv (i + 1) (String.length kv - i - 1) in
+          if String.length k >= 2 && k.[0] = '@' && k.[1] = 'o' then w := { !w with out = Some (zbytes_of_spec v) }
+          else if String.length k >= 2 && k.[0] = '@' && k.[1] = 'd' then begin
+            let name = zbytes_of_spec (String.sub k 2 (String.length k - 2)) in
+            let regular =
+              if v = "-" then [] else
+              List.concat (List.mapi (fun grp e ->
+                  if e = "" then [] else
+                  match e.[0] with
+                  | '#' ->
+                    let body = String.sub e 1 (String.length e - 1) in
+                    (match String.index_opt body 'x' with
+                     | Some j -> gen_names grp (int_of_string (String.sub body 0 j)) (int_of_string (String.sub body (j + 1) (String.length body - j - 1)))
+                     | None -> failwith "listing")
+                  | '!' | '?' -> []
+                  | _ -> [zbytes_of_spec e]) (split_on ';' v)) in
+            w := { !w with dirs = !w.dirs @ [(name, regular)] }
+          end else w := { !w with env = !w.env @ [(zbytes_of_spec k, zbytes_of_spec v)] }) (split_on ',' s);
+  !w
 let ext_name = function Spawn -> "spawn" | Random -> "random" | Dirscan -> "dirscan"
 let show_store st =
   if st = [] then "-" else
@@ -21,9 +68,19 @@ let cbn = int_of_nat cB
 let ledger st st' = Printf.sprintf " L%d" (3 * (List.length st' - List.length st))
 let rec rep_none n acc = if n <= 0 then acc else rep_none (n - 1) (None :: acc)
 let run = function
-  | "x" :: pn :: pv :: env :: ops ->
-    let genv = getenv_of (parse_env env) in
-    let pn = zbytes_of_hex pn and pv = zbytes_of_hex pv in
+  | "x" :: pn :: pv :: world :: ops ->
+    let w = parse_world world in
+    let genv = getenv_of w.env in
+    (* spiftool_temp_file: snprintf(buff, 256, "%s/%sXXXXXX", $TMPDIR | $TMP | "/tmp", "Eterm-exec-"); the name must fit;
+       the harness sees to it that the directory exists *)
+    let zs s = List.map (fun c -> z_of_int (Char.code c)) (List.init (String.length s) (String.get s)) in
+    let tmpdir_len = match genv (zs "TMPDIR") with
+      | Some d -> List.length d
+      | None -> (match genv (zs "TMP") with Some d -> List.length d | None -> 4) in
+    let outfile_len = tmpdir_len + 1 + 11 + 6 in
+    let xo = exec_world (outfile_len <= 255) (z_of_int outfile_len) w.out in
+    let dl = dir_world w.dirs in
+    let pn = zbytes_of_spec pn and pv = zbytes_of_spec pv in
     let buf = Buffer.create 256 in
     let rec go st first = function
       | [] -> Buffer.add_string buf (" | " ^ show_store st)
@@ -31,19 +88,19 @@ let run = function
         if not first then Buffer.add_string buf " ; ";
         (match split_on ':' op with
          | ["e"; h] ->
-           let s = zbytes_of_hex h in
+           let s = zbytes_of_spec h in
            let n = List.length s in
            if n + 1 > cbn then failwith "input longer than CONFIG_BUFF - 1";
            let b = cstr s (rep_none (cbn - n - 1) []) in
-           (match shell_expand genv pn pv (nat_of_int (n + 1)) b st with
+           (match shell_expand genv pn pv xo dl (nat_of_int (n + 1)) b st with
             | Fault x -> Buffer.clear buf; Buffer.add_string buf ("FAULT:" ^ fault_name x)
             | Ok (XNull, st') -> Buffer.add_string buf ("N" ^ ledger st st'); go st' false rest
             | Ok (XBuf s', st') -> Buffer.add_string buf ("S " ^ hex_of_zbytes (take_str s') ^ ledger st st'); go st' false rest
             | Ok (XExt e, _) -> Buffer.add_string buf ("X " ^ ext_name e))
-         | ["p"; k; v] -> Buffer.add_string buf "P"; go (put_var st (zbytes_of_hex k) (Some (zbytes_of_hex v))) false rest
-         | ["d"; k] -> Buffer.add_string buf "D"; go (put_var st (zbytes_of_hex k) None) false rest
+         | ["p"; k; v] -> Buffer.add_string buf "P"; go (put_var st (zbytes_of_spec k) (Some (zbytes_of_spec v))) false rest
+         | ["d"; k] -> Buffer.add_string buf "D"; go (put_var st (zbytes_of_spec k) None) false rest
          | ["g"; k] ->
-           (match get_var st (zbytes_of_hex k) with
+           (match get_var st (zbytes_of_spec k) with
             | None -> Buffer.add_string buf "U"
             | Some v -> Buffer.add_string buf ("V " ^ hex_of_zbytes v));
            go st false rest
